@@ -72,7 +72,7 @@ impl tower_service::Service<http::Request<tonic::body::Body>> for InnerSvc {
                     }
                 }
             }
-            let mut resp = http::Response::new(SimBody::new(&this.sim, "inner-resp", this.resp_body.clone(), this.resp_pending, false));
+            let mut resp = http::Response::new(SimBody::new(&this.sim, "inner-resp", this.resp_body.clone(), this.resp_pending, this.sim.chance(1, 3)));
             *resp.status_mut() = StatusCode::from_u16(this.resp_status).unwrap();
             *resp.version_mut() = Version::HTTP_2;
             *resp.headers_mut() = header_map(&this.resp_headers);
@@ -172,7 +172,7 @@ pub fn run(sim: &Sim, _idx: u64) {
     };
     let outer_bytes: Vec<u8> = if kind == 0 && text_req { indep::b64_encode(&req_grpc, true).into_bytes() } else { req_grpc.clone() };
     let chunks = cut_bytes(sim, &outer_bytes, &[0, 4, 8]);
-    let mut req = http::Request::new(SimBody::new(sim, "outer-req", chunks.into_iter().map(Ev::Data).collect(), sim.pick(&[0u64, 30]), false));
+    let mut req = http::Request::new(SimBody::new(sim, "outer-req", chunks.into_iter().map(Ev::Data).collect(), sim.pick(&[0u64, 30]), sim.chance(1, 3)));
     *req.method_mut() = method.clone();
     *req.version_mut() = version;
     *req.uri_mut() = "/pkg.Svc/Method?x=1".parse().unwrap();
